@@ -151,6 +151,12 @@ def mk(lam, helpers, depth=1, tags=(), group="", scope="g"):
             # F41: calling an `async def` gives a coroutine, not the value of its return expression: never inlined
             vs.append(Var(h, scope, "async def %s(%s):\n    return %s" % (h, plist, body), "", helper=None, byname=True, stays=True))
             continue
+        elif kind == "under":
+            # F51: the helper is defined under an `if`; inside brackets its return expression continues on a line that starts LEFT
+            # of the `def` - those characters are code, not indentation
+            src = "if True:\n    def %s(%s):\n        return (0 +\n%s)" % (h, plist, body)
+            vs.append(Var(h, scope, src, "%s = 'REBOUND'" % h, helper=(list(params), "(0 + %s)" % body), byname=True))
+            continue
         elif kind == "mlstr":
             # F40: a helper whose body holds a multi-line string literal, its continuation line LEFT of the def's own indentation
             # when the def is nested (the generated program indents every line of `src` by 4 per enclosing function): `body` has
@@ -422,6 +428,8 @@ SRC_HELPERS = [
     ("ms", ["x"], "x + len(MLS)", "mlstr"),
     ("ms2", ["x", "s"], "x if s == MLS else -x", "mlstr"),
     ("ms3", ["x"], "(x, MLS.split())", "mlstr"),
+    ("hu", ["x"], "x - 10 + 5", "under"),
+    ("hu2", ["x", "y"], "y * 100 + x", "under"),
     ("af", ["x"], "x + 1", "async"),
     ("af2", ["x", "y"], "x - y", "async"),
     ("h", ["a"], "a + 1", "def"),
@@ -431,6 +439,7 @@ SRC_HELPERS = [
 SRC_TEMPLATES = [
     "lambda {P}: ms({P}.a)", "lambda {P}: ms2({P}.a, {S})", "lambda {P}: ms3({P}.a)", "lambda {P}: hms({P}.a) + ms({P}.b)",
     "lambda {P}: sum({P}.jets.Select(lambda j: ms(j.pt)))", "lambda {P}: [ms2(j.pt, {S}) for j in {P}.jets]",
+    "lambda {P}: hu({P}.a)", "lambda {P}: hu2({P}.a, {P}.b) + h(hu({P}.b))", "lambda {P}: sum({P}.jets.Select(lambda j: hu2(j.pt, {P}.a)))",
     "lambda {P}: af({P}.a)", "lambda {P}: af2({P}.a, h({P}.b))", "lambda {P}: (af({P}.a), h({P}.a))", "lambda {P}: haf({P}.a)",
     "lambda {P}: {P}.jets.Select(lambda j: af(j.pt))",
 ]
@@ -441,7 +450,7 @@ CALLED_WALRUS = [
     "lambda e: (lambda a: (lambda q: (a := q) + a)(e.b) + a)(e.a)", "lambda e: (lambda q, r=2: (q := q + r) * 2)(e.a, 3)",
     "lambda e: h((lambda q: (w := q) * w)(e.a))",
 ]
-SRC_WITNESSES = [("lambda e: ms(e.a)", {"F40", "multi-line-string"}, "l1"), ("lambda e: af(e.a)", {"F41", "async-def"}, "g"),
+SRC_WITNESSES = [("lambda e: hu(e.a)", {"F51", "continuation-left-of-def"}, "l1"), ("lambda e: ms(e.a)", {"F40", "multi-line-string"}, "l1"), ("lambda e: af(e.a)", {"F41", "async-def"}, "g"),
                  ("lambda t: (lambda q: (t := q) + t)(t.a) + t.b", {"F48", "assignment-expression"}, "g")]
 
 
